@@ -19,6 +19,11 @@ Ties (all on the unmodified `uwg` package of the tree under test):
                  .uwg files with the bld block laid out in 7 ways: one verdict, bld held == bld written, equal
                  to_dict, equal generated model, byte-identical EPW (file, `simulate param`) for a few members.
                  The same family (long blocks, sums inside / outside the tolerance) is fed to tie 1.
+  5. circumstances (tie_circumstances; helpers in harness/u2_util.py) what must not matter: the SAME dictionary object
+                 given to from_dict twice (UWG and every typed sub-dictionary; optional keys present / absent / null;
+                 numbers respelled as int / float / text), a dictionary handed out by to_dict while the live model is
+                 given other values, observers (repr / str / ToString at every stage) and DEBUG logging, fresh `python`
+                 and `python -O` processes, the real command line, other models of the process.
 Oracles evaluated directly on the implementation: layout invariance of the parsed map; to_dict equal
 before/after from_dict and after a JSON text round trip; deep attribute equality of the custom reference
 objects; identical simulation output over all routes.
@@ -1716,6 +1721,450 @@ def tie_stocks(chk, uwg, xtab):
                % (len(sims), '' if quick else ', every third of the rest'), mismatches=bad, branches=branches)
 
 
+# ----------------------------------------------------------------------------- circumstances (fourth round)
+def tie_circumstances(chk, uwg, kinds, xtab):
+    """The six circumstances of harness/generic.py applied to C06: serialisation and construction must not depend on
+    what the caller does with the dictionaries afterwards (or did before), on who looks at the model, on the logging
+    level, on `python -O`, on the command line as a route, or on other models of the process."""
+    import concurrent.futures
+    import generic as G
+    import u2_util as W
+    import uwgutil as U
+    import s3_util as S3
+    from uwg import utilities
+    UWG = uwg.UWG
+    rng = chk.rng
+    quick = chk.tier == 'quick'
+    work = chk.work()
+    types = set(utilities.REF_BLDTYPE_SET)
+    epw = os.path.join(core.REPO, 'resources', 'SGP_Singapore.486980_IWEC.epw')
+    classes = {'Material': uwg.Material, 'Element': uwg.Element, 'Building': uwg.Building, 'BEMDef': uwg.BEMDef,
+               'SchDef': uwg.SchDef}
+    nbad, n, br, shown = 0, 0, {}, {}
+    known = {k_: v_ for k_, v_ in kinds.items() if v_[0] != 'unknown'}
+    unknown = [k_ for k_, v_ in kinds.items() if v_[0] == 'unknown']
+    with quiet():
+        shipped = UWG.from_param_file(os.path.join(core.REPO, 'resources', 'initialize_singapore.uwg'), epw_path=epw)
+
+    def bad(circ, what, case, observed, expected):
+        nonlocal nbad
+        nbad += 1
+        shown[circ] = shown.get(circ, 0) + 1
+        if shown[circ] <= 2 and nbad <= 8:
+            chk.violation('impl-violation', '%s [%s]' % (what, circ), case=case, observed=observed, expected=expected)
+
+    def count(circ, k=1):
+        nonlocal n
+        n += k
+        br[circ] = br.get(circ, 0) + k
+
+    def gen_dict(ncustom):
+        names, bems, schs = [], [], []
+        for i in range(ncustom):
+            era = rng.choice(['pre80', 'pst80', 'new'])
+            t = rng.choice(['custom%d' % i, rng.choice(sorted(types))])
+            if (t, era) in names:
+                t = 'custom%d' % i
+            names.append((t, era))
+            bems.append(gen_bem_dict(rng, t, era))
+            schs.append(gen_sch_dict(rng, t, era))
+        d = {'type': 'UWG'}
+        d.update(gen_params(rng, known, types, customs=names))
+        for name in unknown:
+            # a parameter whose validator the translator does not recognise in this tree: values shaped like the shipped one
+            v = getattr(shipped, name)
+            if isinstance(v, (list, tuple)) and v and isinstance(v[0], (list, tuple)):
+                pool_ = sorted({x for r in v for x in r if isinstance(x, (int, float))} | {0.5})
+                d[name] = [[rng.choice(pool_) for _ in r] for r in v]
+            else:
+                d[name] = copy.deepcopy(v)
+        if ncustom:
+            d['ref_bem_vector'], d['ref_sch_vector'] = bems, schs
+        return d
+
+    def gen_valid(ncustom):
+        """a generated dictionary that from_dict accepts (the generator also draws boundary values it refuses)"""
+        for _ in range(60):
+            d = gen_dict(ncustom)
+            try:
+                with quiet():
+                    UWG.from_dict(copy.deepcopy(d))
+                return d
+            except Hang:
+                raise
+            except Exception:  # noqa: BLE001
+                continue
+        raise core.Infra('no accepted dictionary generated in 60 draws')
+
+    def same_model(a, b):
+        da, db = a.to_dict(include_refDOE=True), b.to_dict(include_refDOE=True)
+        if canon(da) != canon(db):
+            return 'to_dict differs: %s' % str(first_diff(json.loads(json.dumps(da)), json.loads(json.dumps(db))))
+        for name in ('ref_bem_vector', 'ref_sch_vector'):
+            df = first_diff(deep(getattr(a, name) or None), deep(getattr(b, name) or None))
+            if df:
+                return '%s%s: %r on the first object, %r on the second' % (name, df[0], df[1], df[2])
+        return None
+
+    def same_object(a, b):
+        df = first_diff(deep(a), deep(b))
+        return None if not df else 'attribute %s: %r on the first object, %r on the second' % (df[0] or '<root>', df[1], df[2])
+
+    cl0 = W.class_digest()
+    # ---- (6a) from_dict of every class, the SAME dictionary object used twice
+    ndict = 12 if quick else 80
+    for i in range(ndict):
+        d = gen_valid(rng.choice([1, 2, 2, 3]))
+        # optional keys of the sub-dictionaries: present / absent / null where the unchanged tree accepts all three
+        for b in d['ref_bem_vector']:
+            r = rng.random()
+            if r < 0.25:
+                del b['building']['heat_cap']
+            elif r < 0.4:
+                b['building']['heat_cap'] = None
+        variant = rng.choice(['whole', 'whole', 'parts'])
+        origin = {'dictionary': json.dumps(d)[:2500]}
+        if variant == 'parts' or i % 3 == 0:
+            for path, sub in W.sub_dicts(d):
+                count('from_dict twice: ' + sub['type'])
+                msg, verdict = W.from_dict_twice(classes[sub['type']], sub, same_object)
+                if msg:
+                    bad('caller-owned data', '%s.from_dict used twice on one dictionary' % sub['type'],
+                        {'sub_dictionary_at': path, 'sub_dictionary': json.dumps(sub)[:1200]}, msg,
+                        'the dictionary is left as it was; both uses give equal objects')
+                    break
+        count('from_dict twice: UWG')
+        msg, verdict = W.from_dict_twice(UWG, d, same_model)
+        if msg:
+            bad('caller-owned data', 'UWG.from_dict used twice on one dictionary (custom reference buildings; optional keys '
+                'present / absent / null)', origin, msg,
+                'the dictionary is left as it was (keys, values, types); the second model equals the first: parameters, '
+                'to_dict(include_refDOE) and every attribute of every custom object')
+        elif verdict != 'ok':
+            bad('caller-owned data', 'generated valid dictionary', origin, verdict, 'accepted')
+    # hand-edited dictionaries: a number written as int / float / numeric text in any typed sub-dictionary, the optional
+    # reference vectors absent / null / empty - wherever the tree accepts the spelling, the object is the same object
+    nspell = 0
+    unvalidated = set()
+    for i in range(3 if quick else 30):
+        d = gen_valid(2)
+        for path, sub in W.sub_dicts(d):
+            cls = classes[sub['type']]
+            try:
+                with quiet():
+                    ref_obj = cls.from_dict(copy.deepcopy(sub))
+            except Exception:  # noqa: BLE001 - (judged by the from_dict-twice family above)
+                continue
+            numeric = [k_ for k_, v_ in sub.items() if isinstance(v_, (int, float)) and not isinstance(v_, bool)]
+            for key in (numeric if not quick else rng.sample(numeric, min(2, len(numeric)))):
+                v = sub[key]
+                forms = [float(v), repr(v), ' %r ' % v] + ([int(v), '%d' % v] if float(v) == int(v) else [])
+                for f_ in forms:
+                    if type(f_) is type(v):
+                        continue
+                    e = copy.deepcopy(sub)
+                    e[key] = f_
+                    nspell += 1
+                    msg, verdict = W.from_dict_twice(cls, e, same_object)
+                    count('number respelled: ' + verdict.split(' ')[0])
+                    if msg is None and verdict == 'ok':
+                        with quiet():
+                            o = cls.from_dict(copy.deepcopy(e))
+                        if isinstance(f_, str) and o.to_dict().get(key) == f_:
+                            # unchanged-tree observation (recorded, not judged): an attribute without validator keeps
+                            # the text it was given; the round trip is still the identity
+                            unvalidated.add('%s.%s' % (sub['type'], key))
+                        elif canon_num(o.to_dict()) != canon_num(ref_obj.to_dict()):
+                            msg = 'accepted, but the object says %s' % str(first_diff(
+                                json.loads(json.dumps(o.to_dict())), json.loads(json.dumps(ref_obj.to_dict())), strict=False))
+                    if msg:
+                        bad('caller-owned data', 'a number of a %s dictionary written as %s' % (sub['type'], type(f_).__name__),
+                            {'sub_dictionary_at': path, 'key': key, 'value_as_generated': repr(v), 'value_as_written': repr(f_)}, msg,
+                            'refused, or the same object as with the number itself; same verdict on second use')
+    if unvalidated:
+        chk.notes.append('unchanged-tree observation (recorded, not judged): %s has no validator - from_dict stores a numeric '
+                         'TEXT such as "120" as text (and to_dict returns that text)'
+                         % ', '.join(sorted(unvalidated)))
+    for variant in ('absent', 'null', 'empty', 'one absent'):
+        d = gen_valid(0)
+        for key in ('ref_bem_vector', 'ref_sch_vector'):
+            d.pop(key, None)
+            if variant == 'null':
+                d[key] = None
+            elif variant == 'empty':
+                d[key] = []
+        if variant == 'one absent':
+            d['ref_bem_vector'] = None
+        count('optional reference vectors ' + variant)
+        msg, verdict = W.from_dict_twice(UWG, d, same_model)
+        if msg or verdict != 'ok':
+            bad('caller-owned data', 'optional reference vectors %s' % variant, {'dictionary': json.dumps(d)[:1500]},
+                msg or verdict, 'accepted twice, equal models, dictionary as it was')
+    # refused dictionaries: refused again, unchanged
+    good = gen_valid(2)
+    refusals = [('albroad', 1.5), ('glzr', -0.1), ('zone', '9Z'), ('month', 13), ('bld', [['largeoffice', 'pst80', 0.4]]),
+                ('flr_h', 0), ('type', 'uwg'), ('latfocc', -1)]
+    for key, v in refusals:
+        count('refused dictionary used twice')
+        d = copy.deepcopy(good)
+        d[key] = v
+        msg, verdict = W.from_dict_twice(UWG, d, same_model)
+        if msg or verdict == 'ok':
+            bad('caller-owned data', 'a refused dictionary used twice', {'key': key, 'value': repr(v)},
+                msg or 'accepted', 'refused both times with the same exception class, dictionary left as it was')
+    for path, key, v in [(('ref_bem_vector', 0, 'building'), 'shgc', 1.5), (('ref_bem_vector', 1, 'wall'), 'albedo', -0.1),
+                         (('ref_sch_vector', 0), 'q_elec', -1), (('ref_bem_vector', 0, 'roof', 'material_lst', 0), 'volheat', -3)]:
+        count('refused dictionary used twice')
+        d = copy.deepcopy(good)
+        o = d
+        for p_ in path:
+            o = o[p_]
+        o[key] = v
+        msg, verdict = W.from_dict_twice(UWG, d, same_model)
+        if msg or verdict == 'ok':
+            bad('caller-owned data', 'a refused dictionary used twice', {'path': list(path) + [key], 'value': repr(v)},
+                msg or 'accepted', 'refused both times with the same exception class, dictionary left as it was')
+    # ---- (6b) the dictionary handed out by to_dict stays a record of the moment it was taken
+    nlive = 6 if quick else 40
+    for i in range(nlive):
+        d0 = gen_valid(rng.choice([0, 1, 2]))
+        nxt = gen_valid(2)
+        with quiet():
+            m = UWG.from_dict(copy.deepcopy(d0))
+        d = m.to_dict(include_refDOE=True)
+        text = json.dumps(d)
+        snap = G.snapshot(d)
+        held = {a: getattr(m, a) for a in ('schtraffic', 'bld')}
+        held_snap = G.snapshot(held)
+        count('to_dict, then the model goes on')
+        # the next case of a parametric study: every parameter assigned another accepted value (plain assignment)
+        done = []
+        m.grasscover = 0
+        m.treecover = 0
+        m.blddensity = nxt['blddensity']
+        for a in UWG.PARAMETER_LIST:
+            if a in ('blddensity',):
+                continue
+            try:
+                setattr(m, a, copy.deepcopy(nxt[a]))
+                done.append(a)
+            except Exception:  # noqa: BLE001 - (a stock naming customs this model does not have, ...)
+                pass
+            w = G.where_differs(snap, d)
+            if w:
+                bad('caller-owned data', 'the dictionary returned by to_dict() after the model was given other parameter values',
+                    {'model_built_from': json.dumps(d0)[:1500], 'then': 'd = model.to_dict(include_refDOE=True); model.%s = %r'
+                     % (a, nxt[a])}, 'd changed: %s' % w,
+                    'a dictionary produced by to_dict keeps describing the parameter values at the time of the call (it '
+                    'equals its own JSON text taken at the same moment)')
+                break
+        # ... and every custom object edited through its setters
+        for vec, src in ((m.ref_bem_vector or [], nxt['ref_bem_vector']), (m.ref_sch_vector or [], nxt['ref_sch_vector'])):
+            for o, sd in zip(vec, src):
+                for part in (('building', 'mass', 'wall', 'roof') if sd['type'] == 'BEMDef' else ('',)):
+                    tgt, vals = (getattr(o, part), sd[part]) if part else (o, sd)
+                    for key, v in vals.items():
+                        if key in ('type', 'bldtype', 'builtera', 'material_lst', 'layer_thickness_lst'):
+                            continue
+                        try:
+                            setattr(tgt, key, copy.deepcopy(v))
+                        except Exception:  # noqa: BLE001
+                            pass
+        w = G.where_differs(snap, d) or G.where_differs(held_snap, held)
+        if w and not any('to_dict() after' in v_['theorem_or_tie'] for v_ in chk.violations[-1:]):
+            bad('caller-owned data', 'the dictionary returned by to_dict() / the values read from the getters after the custom '
+                'reference objects were edited', {'model_built_from': json.dumps(d0)[:1500]}, 'changed: %s' % w, 'unchanged')
+        try:
+            with quiet():
+                ma, mb = UWG.from_dict(d), UWG.from_dict(json.loads(text))
+            msg = same_model(ma, mb)
+        except Exception as e:  # noqa: BLE001
+            msg = '%s: %s' % (type(e).__name__, str(e)[:150])
+        if msg:
+            bad('caller-owned data', 'from_dict(d) and from_dict(JSON text of d taken at the same moment) after the live model '
+                'went on', {'model_built_from': json.dumps(d0)[:1500], 'parameters_assigned_afterwards': done[:60]}, msg,
+                'equal models: the dictionary route and the JSON text route are the same route')
+    # recorded, not judged (unchanged tree): the other direction - the caller edits the dictionary he received
+    with quiet():
+        m = UWG.from_dict(copy.deepcopy(good))
+    d = m.to_dict(include_refDOE=True)
+    before = (m.schtraffic[0][0], len(m.bld))
+    d['schtraffic'][0][0] = 0.123
+    d['bld'].append(['hospital', 'new', 0.0])
+    live = [x for x, hit in (('schtraffic', m.schtraffic[0][0] != before[0]), ('bld', len(m.bld) != before[1])) if hit]
+    if live:
+        chk.notes.append('unchanged-tree observation (recorded, not judged): to_dict() hands out the live list objects of %s '
+                         '(and of the schedule matrices / layer lists of custom objects): a caller who edits the dictionary he '
+                         'received edits the model. The tie demands only the other direction - later ASSIGNMENTS to the model '
+                         'leave a dictionary handed out earlier as it was' % ', '.join(live))
+    if W.class_digest() != cl0:
+        bad('other models', 'module- and class-level data of the package', {'operations': 'from_dict / to_dict / setters above'},
+            'digest changed', 'unchanged')
+    # ---- live route members (simulable): kwargs-like object route -> dict, JSON text, .uwg file
+    customs = [{'type': 'labtower', 'era': 'new', 'src': [3, 2, 0], 'bem': {'building.heateff': 0.7, 'building.heat_cap': 2.0},
+                'sch': {'q_elec': 25.5}},
+               {'type': 'largeoffice', 'era': 'pst80', 'src': [3, 1, 0], 'bem': {'wall.albedo': 0.35, 'building.heat_cap': 250.5},
+                'sch': {'cool': {'const': 22.0}}}]
+    toronto = os.path.join(core.REPO, 'tests', 'epw', 'CAN_ON_Toronto.716240_CWEC.epw')
+    if not os.path.exists(toronto):
+        toronto = epw
+    members = [
+        ('shipped parameters, ints and floats mixed, two overrides', None, epw,
+         [['nday', 1], ['dtsim', 300], ['zone', rng.choice(['1A', '7', '3C'])], ['glzr', 0.25], ['albroof', 1], ['h_mix', 1],
+          ['bldheight', 15], ['sensanth', 10.5], ['month', rng.randint(1, 12)]]),
+        ('two custom reference buildings with small heating plants (heat_cap 2 and 250.5 W/m2), January in Toronto', customs, toronto,
+         [['nday', 1], ['dtsim', 300], ['month', 1], ['day', 8], ['zone', '5A'],
+          ['bld', [['labtower', 'new', 0.5], ['largeoffice', 'pst80', 0.3], ['midriseapartment', 'pre80', 0.2]]]]),
+    ]
+    jobs, info = [], []
+    for k, (label, cust, rural, attrs) in enumerate(members):
+        proto = W.new_from_spec(uwg, {'attrs': attrs, 'customs': cust, 'epw': rural, 'out': [os.path.join(work, 'c6p%d' % k), 'o.epw']})
+        d = proto.to_dict(include_refDOE=True)
+        jp = os.path.join(work, 'c6m%d.json' % k)
+        with open(jp, 'w') as f:
+            json.dump(d, f)
+        case = {'member': label, 'parameters_changed_from_the_shipped_file': attrs, 'custom_reference_buildings': cust,
+                'rural_file': os.path.basename(rural)}
+        # plain reference of this process: the object route
+        with quiet():
+            proto.generate()
+            proto.simulate()
+            proto.write_epw()
+        ref = {'records': W.records_of(proto), 'file': G.file_hash(proto.new_epw_path)}
+        count('plain')
+        # (1) + (2): the dictionary route while somebody looks; to_dict before / after every look
+        count('observers + DEBUG logging')
+        try:
+            with G.debug_logging():
+                with quiet():
+                    m = UWG.from_dict(d, epw_path=rural, new_epw_dir=os.path.join(work, 'c6p%d' % k), new_epw_name='l.epw')
+                t0 = W.typed_text(m.to_dict(include_refDOE=True))
+                looks = []
+                for stage in ('construction', 'generate', 'simulate'):
+                    if stage == 'generate':
+                        with quiet():
+                            m.generate()
+                    elif stage == 'simulate':
+                        undo = G.poke_during(m)
+                        try:
+                            with quiet():
+                                m.simulate()
+                        finally:
+                            undo()
+                    G.poke(m)
+                    if W.typed_text(m.to_dict(include_refDOE=True)) != t0:
+                        looks.append(stage)
+                with quiet():
+                    m.write_epw()
+            if looks:
+                bad('observers', 'to_dict of a model before and after somebody looked at it', case,
+                    'to_dict(include_refDOE=True) differs after the look that followed %s' % looks, 'identical')
+            if W.records_of(m) != ref['records'] or G.file_hash(m.new_epw_path) != ref['file']:
+                dd = G.first_diff(ref['records'], W.records_of(m))
+                bad('observers', 'dictionary route while somebody looks (every stage, every 41st step, DEBUG logging) vs the object '
+                    'route never looked at', case, 'hourly records / file differ (first differing hour %s)' % (dd and dd[0]),
+                    'byte-identical weather file')
+        except Hang:
+            raise
+        except Exception as e:  # noqa: BLE001
+            bad('observers', 'dictionary route while somebody looks', case, '%s: %s' % (type(e).__name__, str(e)[:200]), 'the calls return')
+        # (6) + (5): the same dictionary object used by a second model while the first lives and goes on
+        count('caller-owned data / other models')
+        try:
+            with quiet():
+                m2 = UWG.from_dict(d, epw_path=rural, new_epw_dir=os.path.join(work, 'c6p%d' % k), new_epw_name='s.epw')
+                m2.generate()
+                m2.simulate()
+                m2.write_epw()
+            if W.records_of(m2) != ref['records'] or G.file_hash(m2.new_epw_path) != ref['file']:
+                cb = [(b.bldtype, b.building.heat_cap) for b in (m2.ref_bem_vector or [])]
+                bad('caller-owned data', 'second model built from ONE dictionary (the first one generated, simulated, looked at)', case,
+                    'its weather file differs from the first use / the object route; custom buildings (type, heat_cap) of the second '
+                    'model: %s; dictionary now vs as produced: %s' % (cb, G.where_differs(json.load(open(jp)), d)),
+                    'byte-identical weather file')
+        except Hang:
+            raise
+        except Exception as e:  # noqa: BLE001
+            bad('caller-owned data', 'second model built from ONE dictionary', case, '%s: %s' % (type(e).__name__, str(e)[:200]), 'the calls return')
+        # (3) + (4): fresh processes - JSON route plain / -O, the command line plain / -O
+        info.append((k, case, ref, jp, rural))
+        for opt in (False, True):
+            tag = 'j%d%s' % (k, '-O' if opt else '')
+            jobs.append((tag, {'ops': [['newd', 'M', {'json': jp, 'epw': rural, 'out': [os.path.join(work, 'c6' + tag), 'o.epw']}],
+                                       ['dict', 'M', 'dict'], ['gen', 'M'], ['sim', 'M'], ['write', 'M'], ['rec', 'M', 'run'],
+                                       ['dict', 'M', 'dict_after']]}, opt))
+    with concurrent.futures.ThreadPoolExecutor(max_workers=2) as ex:
+        fut = ex.submit(W.children, jobs, work, 6)
+        cli_jobs = []
+        for k, case, ref, jp, rural in info:
+            for opt in (False, True):
+                od = os.path.join(work, 'c6cli%d%d' % (k, opt))
+                os.makedirs(od, exist_ok=True)
+                cli_jobs.append((k, opt, od, ['simulate', 'model', jp, rural, '--new-epw-dir', od, '--new-epw-name', 'o.epw']))
+            if members[k][1] is None:                 # no custom objects: the parameter-file route can say the same
+                dd = json.load(open(jp))
+                od = os.path.join(work, 'c6clip%d' % k)
+                os.makedirs(od, exist_ok=True)
+                pp = os.path.join(od, 'params.uwg')
+                with open(pp, 'w', newline='') as f:
+                    f.write(uwg_text({n_: (dd[n_] if n_ != 'bld' else [tuple(r) for r in dd[n_]]) for n_ in xtab['plist']},
+                                     xtab['plist']))
+                cli_jobs.append((k, False, od, ['simulate', 'param', pp, rural, '--new-epw-dir', od, '--new-epw-name', 'o.epw']))
+        with concurrent.futures.ThreadPoolExecutor(max_workers=4) as ex2:
+            cli_out = list(ex2.map(lambda j: G.cli(j[3], optimize=j[1]), cli_jobs))
+            surface = W.cli_surface_problems()
+        outs = fut.result()
+    for k, case, ref, jp, rural in info:
+        want = W.typed_text(json.load(open(jp)))
+        for opt in (False, True):
+            mode = 'python -O' if opt else 'python'
+            count(mode + ' (fresh process)')
+            rc, doc, err = outs['j%d%s' % (k, '-O' if opt else '')]
+            c2 = dict(case, interpreter=mode + ', fresh process', route='from_dict(json.load(file))')
+            if doc is None or any(x != 'ok' for x in doc['log']):
+                bad(mode, 'JSON route in a fresh interpreter', c2, 'rc=%s calls %s %s' % (rc, doc and doc['log'], err[-200:]), 'runs')
+                continue
+            if doc['obs']['dict'] != want or doc['obs']['dict_after'] != want:
+                bad(mode, 'to_dict(from_dict(JSON)) in a fresh %s process' % mode, c2, 'differs from the JSON document',
+                    'identity, types included - before and after generate(); simulate()')
+            if doc['obs']['run']['records'] != ref['records'] or doc['obs']['run']['file'] != ref['file']:
+                bad(mode, 'JSON route in a fresh %s process vs the object route' % mode, c2, 'hourly records / file differ',
+                    'byte-identical weather file')
+            if doc['class_level_changes']:
+                bad(mode, 'module- and class-level data of the package', c2,
+                    'changed at operation(s) %s' % doc['class_level_changes'][:3], 'unchanged')
+    for (k, opt, od, args), (rc, so, se) in zip(cli_jobs, cli_out):
+        count('command line (python %s-m uwg)' % ('-O ' if opt else ''))
+        fp = os.path.join(od, 'o.epw')
+        if rc != 0 or not os.path.exists(fp) or G.file_hash(fp) != info[k][2]['file']:
+            bad('command line', '`python %s-m uwg simulate %s` vs the object route' % ('-O ' if opt else '', args[1]), info[k][1],
+                'exit status %s, file %s' % (rc, 'differs' if os.path.exists(fp) else 'missing'),
+                'exit status 0 and a byte-identical weather file')
+    count('command line surface')
+    for p_ in surface:
+        bad('command line', 'options of the command line', {'command': '--help'}, p_,
+            'the commands, arguments and options of the unchanged tree')
+    chk.direct('circumstances(caller-owned dictionaries, observers, DEBUG logging, python -O, command line, other models)', n, n,
+               '(6) %d generated UWG dictionaries with 1-3 custom BEMDef / SchDef pairs (optional key heat_cap present / absent / '
+               'null): UWG.from_dict and the from_dict of every typed sub-dictionary (Material, Element, Building, BEMDef, SchDef) '
+               'called TWICE on the same dictionary object - the dictionary is left as it was (keys, values, types), the second '
+               'object equals the first attribute for attribute; hand-edited dictionaries: %d times a numeric value of a typed '
+               'sub-dictionary written as float / int / numeric text / padded text - refused, or the same object as with the '
+               'number, both uses alike - and the optional reference vectors absent / null / empty / one of them null; '
+               '%d refused dictionaries (top-level and nested values out of '
+               'range) are refused again with the same class; %d live models: d = to_dict(include_refDOE) and its JSON text '
+               'taken, then EVERY parameter assigned another accepted value and every attribute of every custom object '
+               're-assigned through its setter - d and the values read earlier from the getters are unchanged, from_dict(d) '
+               'equals from_dict(JSON text); (1, 2) simulable members (%s): dictionary route under DEBUG logging with repr / '
+               'str / ToString of every reachable object after construction, after generate(), every 41st step, after '
+               'simulate(): to_dict identical after every look, weather file of the object route; (5, 6) a second model from the '
+               'same dictionary object while the first lives: same file; class-level digest constant; (3) the JSON route in '
+               'fresh `python` and `python -O` processes: to_dict(from_dict(JSON)) is the document (typed), same records and file; '
+               '(4) real `python [-O] -m uwg simulate model` (and `simulate param` on a generated .uwg file for the member without '
+               'customs): exit 0, byte-identical file; `--help` surface of the unchanged tree'
+               % (ndict, nspell, len(refusals) + 4, nlive, '; '.join(m_[0] for m_ in members)), mismatches=nbad, branches=br)
+
+
 # ----------------------------------------------------------------------------- entry point
 def run(chk):
     sys.path.insert(0, os.path.join(core.VERIF, 'harness'))
@@ -1740,6 +2189,7 @@ def run(chk):
         tie_stocks(chk, uwg, xtab)
     else:
         chk.notes.append('generators for the dictionary/route ties need a fully recognised table; skipped')
+    tie_circumstances(chk, uwg, kinds, xtab)
     chk.assumptions += [
         'csv/open layer (line endings, quoting) is exercised by the generators, not by the theorems: the '
         'Lean reader starts from the rows utilities.read_csv returned',
